@@ -95,7 +95,8 @@ func c16PerfSetup(root string) error {
 	tmp := filepath.Join(root, "tmpdir")
 	os.MkdirAll(tmp, 0o755)
 	os.Setenv("TMPDIR", tmp)
-	os.Setenv("PATH", bin+string(os.PathListSeparator)+os.Getenv("PATH"))
+	c16OrigPath = os.Getenv("PATH")
+	os.Setenv("PATH", bin+string(os.PathListSeparator)+c16OrigPath)
 	return nil
 }
 
